@@ -619,7 +619,7 @@ def aligned_stat_cases(draw):
 
 
 def checks(tier):
-    n = {"quick": (8000, 3000, 1000, 600, 1200, 2000), "thorough": (80000, 30000, 10000, 6000, 12000, 20000)}.get(tier, (10, 10, 10, 10, 10, 10))
+    n = {"quick": (8000, 3000, 1000, 600, 1200, 2000), "thorough": (40000, 15000, 6000, 4000, 8000, 12000)}.get(tier, (10, 10, 10, 10, 10, 10))
     return [
         Check("statistics", fn_stat, strategy=stat_cases(), examples=n[0]),
         Check("histograms", fn_hist, strategy=hist_cases(), examples=n[1]),
